@@ -67,7 +67,7 @@ class G:
         if k < 0.4:
             n = self.name()
             if self.r.random() < 0.3:
-                t = self.pick(["t", "u", "x1"])
+                t = self.pick(["t", "u", "x1", "b", "x", "B", "n"])         # one-letter qualifiers too (b / x / n start literal prefixes in the lexer)
                 return "%s.%s" % (t, n), col(n, t)
             return n, col(n)
         if k < 0.65:
@@ -267,7 +267,7 @@ class G:
                 N("ASTFromTable", name=N("ASTSubQueryExpression", statement=tq), alias=N("ASTAlisaExpression", name=alias))
         s = self.pick([None, None, "db"])
         t = self.pick(["t", "u", "orders"])
-        alias = self.pick([None, None, "x1", "y2"])
+        alias = self.pick([None, None, "x1", "y2", "b", "x"])
         text = ("%s.%s" % (s, t) if s else t)
         if alias:
             text += self.pick([" AS ", " ", " as "]) + alias
